@@ -22,6 +22,7 @@ type EvalCtx struct {
 	atReturn   bool
 	inOld      bool
 	noLocals   bool
+	localDefs  map[string]*FunDecl // contract-local definitions in scope (name -> instantiated symbol)
 	shadow     map[string]bool // bound variables / results shadowing parameter names
 }
 
@@ -37,7 +38,7 @@ func (x *Exec) ctxFor(st, old *State, extra map[string]TV) *EvalCtx {
 	for k, v := range extra {
 		vars[k] = v
 	}
-	return &EvalCtx{x: x, prog: x.prog, st: st, old: old, vars: vars, pkg: x.pkg}
+	return &EvalCtx{x: x, prog: x.prog, st: st, old: old, vars: vars, pkg: x.pkg, localDefs: x.defs}
 }
 
 func (x *Exec) evalBool(ctx *EvalCtx, c *Clause) (t *Term) {
@@ -55,6 +56,58 @@ func (x *Exec) evalBool(ctx *EvalCtx, c *Clause) (t *Term) {
 		ctx.fail("clause is not boolean")
 	}
 	return t
+}
+
+// instantiateDefs declares fresh symbols for the contract's local definitions and assumes their defining equations,
+// with bodies evaluated in defState (the entry / pre-call state). Returns the map to put into EvalCtx.localDefs.
+func (x *Exec) instantiateDefs(st *State, fc *FuncContract, mk func() *EvalCtx) map[string]*FunDecl {
+	if fc == nil || len(fc.Defines) == 0 {
+		return nil
+	}
+	out := map[string]*FunDecl{}
+	for _, d := range fc.Defines {
+		ctx := mk()
+		ctx.localDefs = out
+		fd := &FunDecl{Name: x.prog.freshName("def." + d.Name)}
+		extra := map[string]TV{}
+		var bs []BVar
+		var argTerms []*Term
+		for _, pv := range d.Params {
+			s, ty, err := x.prog.sortFromText(pv.Type, ctx.pkg)
+			if err != nil {
+				x.unsupported("define %s: %v", d.Name, err)
+			}
+			bn := pv.Name + "!d"
+			bs = append(bs, BVar{bn, s})
+			fd.Params = append(fd.Params, BVar{pv.Name, s})
+			bt := &Term{Kind: KApp, Op: bn, Sort: s}
+			argTerms = append(argTerms, bt)
+			extra[pv.Name] = ctx.typed(bt, ty)
+		}
+		rs, _, err := x.prog.sortFromText(d.Ret, ctx.pkg)
+		if err != nil {
+			x.unsupported("define %s: %v", d.Name, err)
+		}
+		fd.Ret = rs
+		x.prog.U.AddFun(fd)
+		var body *Term
+		func() {
+			defer func() {
+				if r := recover(); r != nil {
+					if e, ok := r.(evalError); ok {
+						panic(unsupported{fmt.Sprintf("define %s (%s:%d): %s", d.Name, d.File, d.Line, e.msg)})
+					}
+					panic(r)
+				}
+			}()
+			bc := ctx.withVars(extra)
+			body = bc.termOf(bc.eval(d.Body))
+		}()
+		app := SymApp(fd.Name, rs, argTerms...)
+		st.assume(Forall(bs, Eq(app, body), []*Term{app}), "definition of "+d.Name)
+		out[d.Name] = fd
+	}
+	return out
 }
 
 func (c *EvalCtx) withVars(extra map[string]TV) *EvalCtx {
@@ -160,7 +213,7 @@ func (c *EvalCtx) eval(e Expr) TV {
 		if v.Forall {
 			return tvTerm(Forall(bs, bt, pats...))
 		}
-		return tvTerm(Exists(bs, bt))
+		return tvTerm(Exists(bs, bt, pats...))
 	}
 	c.fail("cannot evaluate %s", e.exprString())
 	return TV{}
@@ -777,6 +830,33 @@ func (c *EvalCtx) call(v *ECall) TV {
 			c.fail("vals() of non-map")
 		}
 		return tvTerm(c.x.mapVal(c.state(), mm, c.termOf(m)))
+	case "heapOf":
+		// heapOf("pkg.Type", "Field"): the heap array (object reference -> field value) of a struct field, in the current
+		// state (or the entry state inside old())
+		need(2)
+		ts, ok1 := v.Args[0].(*EStr)
+		fs, ok2 := v.Args[1].(*EStr)
+		if !ok1 || !ok2 {
+			c.fail("heapOf needs two string literals")
+		}
+		ty, err := c.prog.lookupType(ts.V, c.pkg)
+		if err != nil {
+			c.fail("%v", err)
+		}
+		stt, ok := ty.Underlying().(*types.Struct)
+		if !ok {
+			c.fail("heapOf: %s is not a struct", ts.V)
+		}
+		ss := c.prog.sortOf(ty)
+		for i := 0; i < stt.NumFields(); i++ {
+			if stt.Field(i).Name() == fs.V {
+				return tvTerm(c.x.heapGet(c.state(), heapFieldName(ss, fs.V), c.prog.sortOf(stt.Field(i).Type())))
+			}
+		}
+		if gs, ok := c.ghostField(ty, fs.V); ok {
+			return tvTerm(c.x.heapGet(c.state(), ghostHeapName(ty, fs.V), gs))
+		}
+		c.fail("heapOf: no field %s in %s", fs.V, ts.V)
 	case "tag":
 		need(1)
 		return tvTerm(itag(c.termOf(c.eval(v.Args[0]))))
@@ -796,6 +876,19 @@ func (c *EvalCtx) call(v *ECall) TV {
 			c.fail("%v", err)
 		}
 		return tvTerm(c.prog.zeroOfSort(ArraySort(ks, SBool)))
+	}
+	// contract-local definition
+	if f, ok := c.localDefs[v.Fun]; ok {
+		a := args()
+		if len(a) != len(f.Params) {
+			c.fail("%s expects %d arguments", v.Fun, len(f.Params))
+		}
+		for i := range a {
+			if a[i].Sort != f.Params[i].Sort {
+				c.fail("%s: argument %d has sort %s, want %s", v.Fun, i+1, a[i].Sort, f.Params[i].Sort)
+			}
+		}
+		return tvTerm(SymApp(f.Name, f.Ret, a...))
 	}
 	// macro
 	if m, ok := c.prog.Spec.Macros[v.Fun]; ok {
